@@ -47,6 +47,7 @@ func newSimSM(name, eng, policy string) (*simSM, error) {
 	}
 	s := &simSM{sm: sm, w: w, dir: dir, name: name, reqID: 1000, index: 10}
 	s.st = node.VerifStore(sm)
+	s.st.VerifStopBackgroundExpire() // sweeps are run explicitly (deterministic dumps)
 	s.batch = sm.GetBatchOperator()
 	return s, nil
 }
